@@ -72,6 +72,7 @@ Section Shape.
       | KNull => has t DUnit
       | KNum => has t (DFloat s_f64)
       | KInt r => has t (DInteger r)
+      | KStrC mx mn pat => exists n sid, has t (DNewtype n None sid (CString mx mn pat)) /\ has sid DString
       | KEnum raws =>
           exists n ids, Sanitize.variant_idents cls raws = Sanitize.Ok ids /\
                         has t (DEnum n None TagExternal (mk_variants raws ids) false [AllSimpleVariants])
@@ -128,7 +129,7 @@ Section Ok.
     | DOption t => idok look t /\ forall e, look t = Some e -> not_option e
     | DVec t => idok look t
     | DMap k v => (exists e, look k = Some e /\ e_det e = DString) /\ idok look v
-    | DNewtype _ _ t CNone => idok look t
+    | DNewtype _ _ t c => match c with CNone | CString _ _ _ => idok look t | _ => False end
     | DUnit | DBoolean | DInteger _ | DFloat _ | DString | DJsonValue => True
     | _ => False
     end.
@@ -160,7 +161,7 @@ Section Ok.
     destruct d as [? ? tag ? ? ?|? ? ? ?|? ? t c|? ? ?|t|?|t|? ?|?|? ?|?| | |?|?| | |?];
       cbn [det_ok]; try exact (fun H => H).
     - intros [H1 H2]. split; [exact H1|]. intros p Hp. eapply idok_mono; [exact Hm|apply H2; exact Hp].
-    - destruct c; try exact (fun H => H). apply idok_mono. exact Hm.
+    - destruct c; try exact (fun H => H); apply idok_mono; exact Hm.
     - intros [H1 H2]. split; [eapply idok_mono; eassumption|].
       intros e He. destruct H1 as [[Ha Hb]|(e0 & He0)].
       + apply named_not_option. exact (Hdef t e Ha Hb He).
@@ -195,13 +196,13 @@ Proof.
          match assoc n (st_names s) with
          | Some i => (i, s)
          | None => (st_next s, mkSt (st_next s + 1) (put (st_next s) (mkEntry te0 []) (st_ents s))
-                                    ((n, st_next s) :: st_names s) (st_types s) (st_json s))
+                                    ((n, st_next s) :: st_names s) (st_types s) (st_flags s))
          end
      | None =>
          match find_type te0 (st_types s) with
          | Some i => (i, s)
          | None => (st_next s, mkSt (st_next s + 1) (put (st_next s) (mkEntry te0 []) (st_ents s)) (st_names s)
-                                    ((te0, st_next s) :: st_types s) (st_json s))
+                                    ((te0, st_next s) :: st_types s) (st_flags s))
          end
      end) = (t, s') ->
     lk s i = Some e \/ (i = t /\ e = mkEntry te [] /\ match te with DReference _ => False | _ => True end)).
@@ -468,6 +469,25 @@ Section ShapeMain.
     split; [intros n Hn; exact (Hns1 n Hn)|]. split; [exact Hg1|]. split; [exact Hid1|exact Hr1].
   Qed.
 
+  Lemma str_assigned (pat : option ustring) s0 i s1 :
+    assign DString (match pat with Some _ => set_regress s0 | None => s0 end) = (i, s1) ->
+    wf s0 -> nD < st_next s0 -> ents_ok nD (lk s0) ->
+    wf s1 /\ frame s0 s1 /\ names_sub s0 s1 [] /\ ents_ok nD (lk s1) /\ idok nD (lk s1) i /\
+    lk s1 i = Some (mkEntry DString []).
+  Proof.
+    intros Ha Hw Hnx Hg.
+    set (s' := match pat with Some _ => set_regress s0 | None => s0 end) in *.
+    assert (Hw' : wf s') by (destruct pat; [destruct Hw as [H1 H2]; split; [exact H1|exact H2]|exact Hw]).
+    assert (Hnx' : nD < st_next s') by (destruct pat; exact Hnx).
+    assert (Hg' : ents_ok nD (lk s')) by (destruct pat; exact Hg).
+    assert (Hf0 : forall n, det_name DString = Some n -> ~ In n (nkeys s')) by (intros n Hn; discriminate).
+    destruct (assign_ok _ _ _ _ Ha Hw' Hf0) as (Hw1 & Hf1 & Hr1 & _ & Hns1).
+    destruct (assign_ents_ok nD _ _ _ _ Ha Hw' Hnx' Hg' I Hf0) as (Hg1 & Hid1 & _).
+    cbn [realizes] in Hr1. cbn [det_name] in Hns1.
+    split; [exact Hw1|]. split; [destruct pat; destruct Hf1 as [Hx Hy]; split; assumption|].
+    split; [destruct pat; intros n Hn; exact (Hns1 n Hn)|]. split; [exact Hg1|]. split; [exact Hid1|exact Hr1].
+  Qed.
+
   Lemma kind_shape items props req ap k nm' s0 te s1
       (Hfk : frag_kind cls D k items props req ap = true)
       (IHitems : Forall SP items)
@@ -480,11 +500,18 @@ Section ShapeMain.
     KSPost items props req ap k nm' s0 te s1.
   Proof.
     intros Hc Hw Hnx Hg Hnd Hfr.
-    destruct k as [| | | |r|raws|deny| | | |r|]; cbn [conv_kind] in Hc.
+    destruct k as [| | | |mx mn pat|r|raws|deny| | | |r|]; cbn [conv_kind] in Hc.
     - injection Hc as <- <-. apply scalar_kspost; try reflexivity; try assumption; try exact I. intros T t H; exact H.
     - injection Hc as <- <-. apply scalar_kspost; try reflexivity; try assumption; try exact I. intros T t H; exact H.
     - injection Hc as <- <-. apply scalar_kspost; try reflexivity; try assumption; try exact I. intros T t H; exact H.
     - injection Hc as <- <-. apply scalar_kspost; try reflexivity; try assumption; try exact I. intros T t H; exact H.
+    - (* KStrC *)
+      destruct (assign DString _) as [sid s1'] eqn:Ha.
+      destruct (type_name cls nm') as [n|] eqn:Hn; [|discriminate]. injection Hc as <- <-.
+      destruct (str_assigned pat s0 sid s1' Ha Hw Hnx Hg) as (Hw3 & Hf3 & Hns3 & Hg3 & Hid3 & Hl3).
+      split; [exact Hw3|exact Hf3|cbn [own_names]; rewrite Hn; reflexivity|exact Hns3|exact Hg3|exact Hid3|exact I|].
+      intros T He Hp t Hr. cbn [realizes] in Hr. apply get_det_of in Hr. cbn [kshape].
+      exists n, sid. split; [exact Hr|exact (get_det_of _ _ _ _ (He _ _ Hl3))].
     - injection Hc as <- <-. apply scalar_kspost; try reflexivity; try assumption; try exact I. intros T t H; exact H.
     - (* KEnum *)
       destruct (type_name cls nm') as [n|] eqn:Hn; [|discriminate].
@@ -605,7 +632,7 @@ Section ShapeMain.
     - intros ty fmt enum cst nv sv ik items ai mni mxi uq props req ap mnp mxp allo anyo oneo no ref dflt title
              IHitems _ IHprops IHap _ _ _ _.
       intros Hf nm s0 te s1 Hc Hw Hnx Hg Hnd Hfr.
-      destruct (frag_obj_inv _ _ _ _ _ _ _ _ _ _ _ _ _ _ _ _ _ _ _ _ _ _ _ _ _ _ Hf) as (nl & k & Hcl & _).
+      pose proof Hf as Hfi. apply frag_obj_inv in Hfi. destruct Hfi as (nl & k & Hcl & _).
       cbn [frag] in Hf. rewrite Hcl in Hf. change (frag_kind cls D k items props req ap = true) in Hf.
       cbn [conv] in Hc. rewrite Hcl in Hc.
       cbn [names_of] in Hnd, Hfr. rewrite Hcl in Hnd, Hfr.
@@ -680,7 +707,7 @@ Section ShapeMain.
     assert (Hnx1 : nD < st_next s1) by (destruct Hf1 as [Hx _]; lia).
     pose (Goal2 := fun (ent : details) (s2 : st) (en : ustring) =>
       Some s3 = Some (mkSt (st_next s2) (put t (mkEntry ent []) (st_ents s2)) ((en, t) :: st_names s2)
-                           (st_types s2) (st_json s2)) /\
+                           (st_types s2) (st_flags s2)) /\
       wf s2 /\ frame s0 s2 /\ names_sub s0 s2 (names_of cls sch (NRequired d)) /\
       In en (san d :: names_of cls sch (NRequired d)) /\
       ents_ok nD (lk s2) /\ det_ok nD (lk s2) ent /\ det_name ent = Some en /\
@@ -689,7 +716,7 @@ Section ShapeMain.
     { assert (Hnamed : forall n, det_name te = Some n ->
         match det_name te with None => None
         | Some en => Some (mkSt (st_next s1) (put t (mkEntry te []) (st_ents s1)) ((en, t) :: st_names s1)
-                                (st_types s1) (st_json s1)) end = Some s3 ->
+                                (st_types s1) (st_flags s1)) end = Some s3 ->
         exists ent s2 en, Goal2 ent s2 en).
       { intros n Hn H. rewrite Hn in H. exists te, s1, n. unfold Goal2. split; [symmetry; exact H|].
         split; [exact Hw1|]. split; [exact Hf1|]. split.
@@ -702,7 +729,7 @@ Section ShapeMain.
       assert (Halias : forall i s2, assign te s1 = (i, s2) -> det_name te = None ->
         match te with DReference _ => False | _ => True end ->
         Some (mkSt (st_next s2) (put t (mkEntry (DNewtype (san d) None i CNone) []) (st_ents s2))
-                   ((san d, t) :: st_names s2) (st_types s2) (st_json s2)) = Some s3 ->
+                   ((san d, t) :: st_names s2) (st_types s2) (st_flags s2)) = Some s3 ->
         exists ent s2 en, Goal2 ent s2 en).
       { intros i s2 Ha Hn Hnr H.
         assert (Hfresh : forall n, det_name te = Some n -> ~ In n (nkeys s1)) by (intros n Hn'; congruence).
@@ -734,7 +761,7 @@ Section ShapeMain.
     assert (Ht2 : lk s2 t = None).
     { destruct Hf2 as [_ Hy]. rewrite Hy by lia. apply Hem; [unfold t; lia|exact Htn]. }
     set (s3 := mkSt (st_next s2) (put t (mkEntry ent []) (st_ents s2)) ((en, t) :: st_names s2)
-                    (st_types s2) (st_json s2)).
+                    (st_types s2) (st_flags s2)).
     assert (Hlk3 : forall i, lk s3 i = if i =? t then Some (mkEntry ent []) else lk s2 i).
     { intro i. unfold lk, s3. cbn [st_ents]. apply lookup_put. }
     assert (Hm23 : forall i e, lk s2 i = Some e -> lk s3 i = Some e).
@@ -809,7 +836,7 @@ Section ShapeMain.
     apply unique_true_iff in Hun.
     unfold convert_doc in Hc. destruct (negb (Sanitize.unique (def_names cls D))); [discriminate|].
     destruct (conv_defs cls (ref_id D) D 1 _) as [sf|] eqn:Hcd; [|discriminate]. injection Hc as <-.
-    assert (HI0 : SInv [] (mkSt (1 + nD) [] [] [] false)).
+    assert (HI0 : SInv [] (mkSt (1 + nD) [] [] [] (mkFlags false false))).
     { split.
       - split; [intros i e H; discriminate H|intros d i []].
       - cbn [st_next]. lia.
